@@ -11,8 +11,14 @@ import (
 // Mutex mirrors sync.Mutex.
 type Mutex struct{ l vsched.Lockable }
 
-func (m *Mutex) Lock()   { m.l.Acquire("mutex.Lock") }
-func (m *Mutex) Unlock() { m.l.Release("mutex.Unlock") }
+func (m *Mutex) Lock() { m.l.Acquire("mutex.Lock") }
+func (m *Mutex) Unlock() {
+	m.l.Release("mutex.Unlock")
+	if vsched.PostReleasePoints {
+		// a thread may lose the processor right after releasing a lock
+		vsched.Touch("after mutex.Unlock")
+	}
+}
 
 // Once mirrors sync.Once: concurrent callers block until the first call's f
 // has returned.
@@ -100,6 +106,10 @@ func (p *Pool) Put(x any) {
 		return
 	}
 	p.items = append(p.items, x)
+	if !vsched.Free && vsched.PostReleasePoints {
+		// the object is up for grabs from here on, whatever the caller still does with it
+		vsched.Touch("after sync.Pool.Put")
+	}
 }
 
 // RWMutex mirrors sync.RWMutex (readers are serialised too: a coarser but
